@@ -334,6 +334,23 @@ def _known_functions():
     return _KNOWN
 
 
+def owning_functions(prog, body, depth=0):
+    """the reference-tree functions a piece of code belongs to, for who-may-call rules: a closure belongs to the function
+    that defines it; a non-public helper introduced by a refactoring belongs to its callers"""
+    path = re.sub(r"(::\{closure#\d+\})+$", "", body.path)
+    known = _known_functions()
+    if not known or path in known or depth > 4:
+        return {path}
+    fb = next((b for b in prog.bodies.values() if b.path == path), None)
+    if fb is None or fb.is_public:
+        return {path}
+    out = set()
+    for cb in prog.bodies.values():
+        if cb.key != fb.key and any(x.key == fb.key for cs in cb.calls() for x in prog.callees(cs)):
+            out |= owning_functions(prog, cb, depth + 1)
+    return out or {path}
+
+
 def with_new_helpers(prog, body):
     """[body] + the workspace functions introduced by a refactoring (not in anchors/known_functions.json) that it
     reaches through resolved calls: a syntactic rule about `body` has to look into them as well"""
